@@ -16,7 +16,8 @@ func init() {
 		Explanation: "(R1) every store into a []hrpc.RPCResult (found by type in all non-test code) is indexed by the original position of the call it describes: either a lookup in the call->index map that SendBatch fills with m[rpc]=i while ranging over the original batch, keyed by the call whose result is written, or the index of a range over a call slice that is aligned with the result slice (result slice = make(len(that slice)), or both are parameters and the alignment is an obligation at every call site); " +
 			"(R2) the validation loop stores an error into every slot before anything is queued, and the call->index map is filled in that same loop with the range element and index; " +
 			"(R3) a result received from a call's channel is stored only into that same call's slot; " +
-			"(R4) success-flag bookkeeping across rounds: inside the retry loop allOK is only set to false or to the negation of a sticky flag that is declared outside the loop, never reset inside it and only ever OR-ed with the per-group 'unretryable error seen' result; a failed group sets allOK to false.",
+			"(R4) success-flag bookkeeping across rounds: inside the retry loop allOK is only set to false or to the negation of a sticky flag that is declared outside the loop, never reset inside it and only ever OR-ed with the per-group 'unretryable error seen' result; a failed group sets allOK to false." +
+			" Added after the seeded-change rounds: (R5) an error taken from a context and stored into a slot is the Err() of the context whose Done() was seen on that path (or sits in the drain loop whose lower bound is only lowered in that arm); a whole result copied from the location step's result slice into a slot is copied only on the edge where it carries an error; the queue channel of the region client is unbuffered (shared with C03.R5).",
 		Residue:   "allOK <=> every error is nil as a value-level statement over all outcome sequences (R4 pins the sticky-flag mechanism, not the equivalence)",
 		Technique: "index-provenance analysis over SSA (who writes which slot, with which index), alignment obligations propagated to call sites",
 		Run:       runC07,
